@@ -173,6 +173,21 @@ Definition lit_facts (E : facts) : facts := filter (fun xe => is_lit (snd xe)) E
 
 Section Validator.
 Variable claim_ok : claim -> bool.
+(* a guess of the context a `with` header evaluates to (checked as a claim) *)
+Variable guess_ctx : facts -> expr -> option ctx.
+
+Definition known_ctx (E : facts) (e' : expr) : option ctx :=
+  match e' with
+  | ECtxVal c => Some c
+  | _ =>
+      match guess_ctx (lit_facts E) e' with
+      | Some c =>
+          if pure_na e' && forallb (fun x => vmem x (map fst (lit_facts E))) (evars e') &&
+             claim_ok (Claim (lit_facts E) (Some CReal) e' (ECtxVal c))
+          then Some c else None
+      | None => None
+      end
+  end.
 
 Definition leaf_rw (E : facts) (oc : option ctx) (bvs : vars) (e e' : expr) : bool :=
   (match e with
@@ -182,6 +197,7 @@ Definition leaf_rw (E : facts) (oc : option ctx) (bvs : vars) (e e' : expr) : bo
    | _ => false
    end)
   || (is_lit e' && negb (is_lit e) &&
+      pure_na e &&
       forallb (fun x => negb (vmem x bvs) && vmem x (map fst (lit_facts E))) (evars e) &&
       claim_ok (Claim (lit_facts E) oc e e')).
 
@@ -235,12 +251,12 @@ Fixpoint vrw (d : nat) (E : facts) (oc : option ctx) (st st' : stmt) {struct d} 
         else None
     | SContext x e body, SContext x' e' body' =>
         if oident_eqb x x' && vexpr (leaf_rw E (Some CReal)) [] e e' then
+          let oc' := known_ctx E e' in
           let E1 := kill (ovar x) E in
-          let E2 := match x, e' with
-                    | Some x, ECtxVal c => (x, ECtxVal c) :: E1
+          let E2 := match x, oc' with
+                    | Some x, Some c => (x, ECtxVal c) :: E1
                     | _, _ => E1
                     end in
-          let oc' := match e' with ECtxVal c => Some c | _ => None end in
           vrwb d' E2 oc' body body'
         else None
     | SAssert e, SAssert e' => if vx e e' then Some E else None
@@ -274,7 +290,8 @@ End Validator.
 
 (* no literal replacement allowed: the validator of copy propagation alone *)
 Definition no_claims (_ : claim) : bool := false.
-Definition validate_copyprop (d : nat) := vrw_func no_claims d.
+Definition no_guess (_ : facts) (_ : expr) : option ctx := None.
+Definition validate_copyprop (d : nat) := vrw_func no_claims no_guess d.
 
 (* the pass that the soundness theorem is about: the repaired analysis, its
    result re-checked by the verified validator (identity when rejected) *)
